@@ -41,6 +41,10 @@ def analyse_resolution(ctx, interp: Interp, om: OriginModel, consts: Consts, r: 
     for out in enc.raises:
         if hilbert and is_guard_raise(out):
             continue
+        if any(type(at).__name__ == "Opaque" for c, t, _ in out.state.path for at in (c.left - c.right).atoms()):
+            ctx.unk("C05.3", f"{Q}.serialize at resolution {r}: may raise {_exc_text(out.value)}", core.loc(SER, out.node),
+                    f"on a path whose condition is not modelled: [{describe_path(out.state)[:160]}]")
+            continue
         ctx.bad("C05.3", f"{Q}.serialize at resolution {r}: raises {_exc_text(out.value)} for a valid cell",
                 core.loc(SER, out.node),
                 f"a cell with resolution {r} <= MAX_RESOLUTION cannot be encoded: path [{describe_path(out.state)}] ends in "
@@ -124,8 +128,13 @@ def analyse_resolution(ctx, interp: Interp, om: OriginModel, consts: Consts, r: 
             ctx.bad("C05.5", f"{Q}.get_resolution on ids of resolution {r} returns {got}", core.loc(SER, vals[0].node),
                     f"marker scanner and writer disagree: id form {v}")
     elif vals:
+        def _opaque(o):
+            return any(type(at).__name__ == "Opaque" for c, t, _ in o.state.path for at in (c.left - c.right).atoms())
         depends = [o for o in vals if o.state.path]
-        if depends:
+        if depends and any(_opaque(o) for o in depends):
+            ctx.unk("C05.5", f"{Q}.get_resolution on ids of resolution {r}", core.loc(SER, vals[0].node),
+                    f"the scan uses an operation that is not modelled; {len(vals)} abstract outcomes, not decided")
+        elif depends:
             conds = "; ".join(f"[{describe_path(o.state)}] -> {o.value}" for o in vals[:4])
             ctx.bad("C05.5", f"{Q}.get_resolution on ids of resolution {r}: result depends on data bits", core.loc(SER, vals[0].node),
                     f"the scan tests a bit that is not the marker or a guaranteed zero: {conds}")
